@@ -49,7 +49,7 @@ func c08a(c *Ctx) {
 	if fn == nil || es == nil {
 		return
 	}
-	ws := writeSites(fn)
+	ws := c.sitesOf(fn)
 	find := func(format string, pred func(ws writeSite) bool) []writeSite {
 		var out []writeSite
 		for _, w := range ws {
@@ -60,8 +60,8 @@ func c08a(c *Ctx) {
 		return out
 	}
 	argT := func(w writeSite, i int) string {
-		if i < len(w.args) {
-			return c.term(fn, w.args[i])
+		if i < len(w.argT) {
+			return w.argT[i]
 		}
 		return ""
 	}
@@ -94,7 +94,7 @@ func c08a(c *Ctx) {
 	}
 	// lines are written unconditionally inside their loops (nothing but the range test guards them)
 	uncond := func(w *writeSite) bool {
-		d := dropAtoms(c.PC(fn).At(w.call.Block()), func(a string) bool {
+		d := dropAtoms(w.cond, func(a string) bool {
 			return strings.Contains(a, " < builtin:len(") || strings.Contains(a, ".Scope == ")
 		})
 		return dnfEquiv(d, mkDNF([]string{}))
@@ -107,7 +107,7 @@ func c08a(c *Ctx) {
 	okB := len(bz) == 1 && !isInLoopRegion(bz[0].call.Block()) && canReach(plain.call.(ssa.Instruction), bz[0].call.(ssa.Instruction)) && canReach(table.call.(ssa.Instruction), bz[0].call.(ssa.Instruction)) &&
 		!canReach(bz[0].call.(ssa.Instruction), plain.call.(ssa.Instruction)) && !canReach(bz[0].call.(ssa.Instruction), table.call.(ssa.Instruction))
 	if okB {
-		d := dropAtoms(c.PC(fn).At(bz[0].call.Block()), func(a string) bool { return strings.Contains(a, "Scope") })
+		d := dropAtoms(bz[0].cond, func(a string) bool { return strings.Contains(a, "Scope") })
 		okB = dnfEquiv(d, mkDNF([]string{}))
 	}
 	c.Check(okB, "header/terminator", pos, "'.byte 0' exactly once, unconditionally, after all header lines", "the header terminator '.byte 0' is not written exactly once after both header loops")
